@@ -1,7 +1,7 @@
 """XInclude workload: generator of file graphs and reference expansion on the model of the graph.
 
 A graph is  files: {relative path -> bytes}  +  root: relative path of the document that is parsed.  Directory entries
-are implied by the paths.  URIs in the model are absolute paths below the virtual root '/R/' (the checker maps the
+are implied by the paths.  URIs in the model are absolute paths below the virtual root VROOT (the checker maps the
 scratch directory of a run onto it).
 
 Reference (XInclude 1.0 second edition, sections 3, 4.1-4.5), restricted to what property C20 states:
@@ -29,7 +29,7 @@ XI = 'http://www.w3.org/2001/XInclude'
 XMLNS = 'http://www.w3.org/XML/1998/namespace'
 NSDECL = 'http://www.w3.org/2000/xmlns/'
 SEP = '\x01'
-VROOT = '/R/'
+VROOT = '/v1/v2/v3/v4/v5/v6/R/'     # deep enough that an xml:base climbing above the graph's root is not clamped at '/'
 CHUNK = 16 * 1024
 
 
